@@ -134,6 +134,11 @@ def postprocess_attributes(
     if retain_names is None:
         retain_names = numpoly.get_options()["retain_names"]
     if not retain_names:
+        if names is None:
+            # number the columns before unused ones are dropped: the indeterminants
+            # that remain keep their number, whatever `retain_names` says.
+            default = numpoly.get_options()["default_varname"]
+            names = numpoly.symbols(f"{default}:{exponents.shape[1]}").names
         exponents, names = remove_redundant_names(exponents, names)
 
     exponents_, count = numpy.unique(exponents, return_counts=True, axis=0)
